@@ -22,7 +22,7 @@ def first_try(d):
     c = d['checks_run'].lower()
     return not ('missed' in c or 'not detected' in c or 'after strengthening' in c)
 n = len(metas); ok1 = sum(1 for d in metas if first_try(d)); nd = sum(1 for d in metas if d['checks_run'].startswith('NOT DETECTED'))
-out.append("Five rounds with one change per applicable property and round (19 x 5 = 95) and a sixth round for fourteen of them: **%d kept, %d reported by the registered quick check at the first try, %d only after the check was strengthened (what was missing is said in the last column and in section 13), %d not detected.** All changes of rounds 1-3 were re-applied to the tree as it stood after round 3, and all 35 changes of the seven properties whose checks changed in rounds 4-5 (C11, C12, C13, C15, C16, C18, C19) once more after round 5 (those of C04 and C11 again after round 6, those of C02, C08 and C17 again after the last repair in `/repo`), each time with the owning quick check re-run (`seeded/RECHECK_ON_FINAL_TREE.txt`): all reported except `C19-ack-timer-armed-when-finished-prepared`, which a later repair made harmless - its own demonstration passes on the final tree. (One of those runs, `C12-two-excess-dotdot-climb-out`, ended with exit 2 once and with exit 1 in four repetitions: the change lets filestore operations climb two levels above the root, into the harness's own scratch directory.)\n" % (n, ok1, n - ok1 - nd, nd))
+out.append("Five rounds with one change per applicable property and round (19 x 5 = 95), a sixth round for fourteen of them and a seventh for twelve (C01-C04, C07, C08, C10, C11, C13, C17-C19): **%d kept, %d reported by the registered quick check at the first try, %d only after the check was strengthened (what was missing is said in the last column and in section 13), %d not detected (all three from the seventh round, which ended with the time available: C02, C04, C17 - the reason and the job that would be needed are in the last column and in section 14.5).** All changes of rounds 1-3 were re-applied to the tree as it stood after round 3, and all 35 changes of the seven properties whose checks changed in rounds 4-5 (C11, C12, C13, C15, C16, C18, C19) once more after round 5 (those of C04 and C11 again after round 6, those of C02, C08 and C17 again after the last repair in `/repo`), each time with the owning quick check re-run (`seeded/RECHECK_ON_FINAL_TREE.txt`): all reported except `C19-ack-timer-armed-when-finished-prepared`, which a later repair made harmless - its own demonstration passes on the final tree. (One of those runs, `C12-two-excess-dotdot-climb-out`, ended with exit 2 once and with exit 1 in four repetitions: the change lets filestore operations climb two levels above the root, into the harness's own scratch directory.)\n" % (n, ok1, n - ok1 - nd, nd))
 out.append("| kept as | property | needs, in order to manifest | result of the registered check |")
 out.append("|---|---|---|---|")
 for m in sorted(glob.glob('/verif/seeded/*/meta.json')):
